@@ -1,6 +1,45 @@
-"""unit c26_locations — C26 "every location the server returns lies inside its document" for the hand-built
-`lsp_types::Location`s, and the description part of "selection ranges strictly grow outward" (WIP header, see bottom)."""
+"""unit c26_locations — C26, first sentence ("every location or range the server returns lies inside its document") for
+the `lsp_types::Location`s the handlers build BY HAND, and the description part of "selection ranges strictly grow outward".
 
+A Location pairs a URI with line/column positions. It lies inside its document only if both come from the SAME LuaDocument:
+positions computed with another file's line index point somewhere else (or nowhere) in the file the URI names. Documents are
+modelled by an uninterpreted identity sp_doc_id; `semantic_model.get_document()` returns the document with identity
+sp_model_doc(model), `get_document_by_file_id(f)` the one with identity sp_doc_of_file(model, f); NOTHING relates the two.
+
+PROVED (site -> clause)
+  vfs/document.rs LuaDocument::to_lsp_location (whole fn)           uri == uri of self, range == to_lsp_range(self, range)
+                                                                    [C26.location.same-document], [..inside-its-document]
+  vfs/document.rs LuaDocument::get_document_lsp_range (whole fn)    == (0,0)..(line_count,0) [C26.location.whole-document-range]
+  inlay_hint/build_inlay_hint.rs get_override_lsp_location (whole)  document and tree fetched by the SAME file id -> the
+                                                                    precondition of to_lsp_location holds [C26.location.override.*]
+  inlay_hint/build_inlay_hint.rs:133,137 (slice, the param loop)    every Location of the map: uri and range of the ONE document
+                                                                    [C26.location.call-signature-param.same-document]
+  inlay_hint/build_inlay_hint.rs:534 set_meta_call_part (slice)     uri and range of the document of the operator's file
+                                                                    [C26.location.meta-call.same-document]   <- seeded defect (A)
+  inlay_hint/build_inlay_hint.rs:664 build_index_expr_hint (slice)  [C26.location.index-hint.same-document]
+  inlay_hint/build_function_hint.rs:59 build_closure_hint (slice)   the default label part's location lies inside its document
+                                                                    [C26.location.closure-hint.inside-its-document]
+  inlay_hint/build_function_hint.rs:163 get_type_location (slice)   [C26.location.type-decl.same-document]
+  inlay_hint/build_function_hint.rs:198 get_base_type_location (sl) [C26.location.type-decl.same-document]
+  definition/goto_module_file.rs:29 (slice)                         uri and whole-document range of the SAME document
+                                                                    [C26.location.module-file.same-document]  (see finding F2)
+  emmy_gutter/mod.rs:170 GutterLocation (slice)                     uri text and line of the SAME document
+                                                                    [C26.location.gutter.same-document]
+  document_selection_range/mod.rs add_detail_ranges (whole fn)      appended ranges are item ranges [..detail-are-item-ranges],
+                                                                    contain the offset half-open [..detail-contains-offset], sorted by
+                                                                    length [..detail-sorted-by-length]; IF the parser's items are
+                                                                    laminar the chain grows [..detail-chain-grows] (lemma_detail_chain;
+                                                                    lemma_inclusive_containment_breaks_the_chain: the half-open sense
+                                                                    is needed)                                  <- seeded defect (B)
+                                                                    … and differs from the previous one [..detail-strictly-grows]:
+                                                                    FAILS today (finding F1), proved on the repaired text
+NOT COVERED  definition/goto_def_definition.rs:259 goto_source_location (no document is consulted), see `not_covered`.
+FINDINGS     F1 (OPEN, the unit exits 1 on it): selection ranges inside `***both***` repeat a range — the property clause
+             [C26.selection.detail-strictly-grows] FAILS on the unrepaired tree as
+             add_detail_ranges:invariant-not-satisfied-at-end-of-loop-b[C26.selection.detail-strictly-grows]; with
+             proposed_fix_detail_dedup.diff applied the unit exits 0 and the clause is proved. F2 goto_module_file's range ends
+             on a line that does not exist — see `findings`.
+"""
 import re
 
 H = 'crates/emmylua_ls/src/handlers/'
@@ -60,6 +99,17 @@ ITEMS = {
     'LuaDocument::get_document_lsp_range': fn(
         DOC, 'get_document_lsp_range', 'LuaDocument', ret='r',
         ensures='r == whole_doc_range(self) /*@C26.location.whole-document-range*/'),
+    # ---- inlay_hint/build_inlay_hint.rs:459-475 get_override_lsp_location (whole function): a CALLER of to_lsp_location that
+    # fetches document and syntax tree by the same file id (used by emmy_gutter/mod.rs:121 and the override inlay hint)
+    'get_override_lsp_location': fn(
+        INLAY, 'get_override_lsp_location', ret='r',
+        ensures='r matches Some(loc) ==> in_doc_of(sp_doc_of_file(semantic_model, file_id), loc) /*@C26.location.override.same-document*/',
+        proof=[(r'let lsp_range = document\.to_lsp_location\(range\)\?;', 'before', '''proof {
+        // `range` is the range of a node / token of the tree of file_id — the file `document` was fetched for
+        assert(exists|e: Syn| #![trigger sp_range(e)] sp_tree(e) == sp_doc_of_file(semantic_model, file_id) && sp_range(e) == range);
+        let e = choose|e: Syn| #![trigger sp_range(e)] sp_tree(e) == sp_doc_of_file(semantic_model, file_id) && sp_range(e) == range;
+        axiom_tree_range(e); axiom_file_range(&document, range);
+    }''')]),
     # ---- inlay_hint/build_inlay_hint.rs:125-140: the two Location::new in the parameter loop ---------------------------------
     'get_call_signature_param_location::locations': slc(
         INLAY, 'get_call_signature_param_location', 'call_signature_param_locations',
@@ -174,7 +224,10 @@ ITEMS = {
                  'rules': [('struct-fields', {'keep': ['range']})]},
     'add_detail_ranges': fn(
         SEL, 'add_detail_ranges',
-        rules=['c26l-closure-contract-workspace-id', 'c26l-closure-contract-range-len', 'c26l-extend-map-filter-loop'],
+        # the two loop rules are alternatives: the repository text is either `result.extend(PIPELINE)` (today) or
+        # `for range in PIPELINE { .. }` (units/c26_locations/proposed_fix_detail_dedup.diff); whichever is present is desugared
+        rules=['c26l-closure-contract-workspace-id', 'c26l-closure-contract-range-len',
+               ('c26l-extend-map-filter-loop', {'optional': True}), ('c26l-for-map-filter-loop', {'optional': True})],
         ensures='''
             old(result)@.is_prefix_of(final(result)@) /*@C26.selection.detail-appends*/,
             // every range appended is the range of one of the description parser's items …
@@ -185,7 +238,11 @@ ITEMS = {
             sorted_by_len(appended(old(result)@, final(result)@)) /*@C26.selection.detail-sorted-by-length*/,
             // hence (lemma_detail_chain), IF the parser's items are laminar, each appended range contains the one before it
             laminar(desc_items(semantic_model, description))
-                ==> chain_grows(appended(old(result)@, final(result)@)) /*@C26.selection.detail-chain-grows*/''',
+                ==> chain_grows(appended(old(result)@, final(result)@)) /*@C26.selection.detail-chain-grows*/,
+            // … and, the property AS STATED ("selection ranges STRICTLY grow outward"), differs from it. (The link from the last
+            // detail range to the first ancestor range is the host loop's `ranges.last() != Some(&range)` guard: unit c26_ranges.)
+            laminar(desc_items(semantic_model, description))
+                ==> chain_grows_strictly(appended(old(result)@, final(result)@)) /*@C26.selection.detail-strictly-grows*/''',
         iter_names={0: 'it'},
         loops={0: '''invariant
                 it.seq() == sorted,
@@ -193,6 +250,9 @@ ITEMS = {
                 from_items(appended(old(result)@, result@), items0) /*@C26.selection.detail-are-item-ranges.inv*/,
                 all_contain(appended(old(result)@, result@), offset) /*@C26.selection.detail-contains-offset.inv*/,
                 sorted_by_len(appended(old(result)@, result@)) /*@C26.selection.detail-sorted-by-length.inv*/,
+                // no range is appended twice in a row (what the code has to see to: items with IDENTICAL ranges exist). The loop-level
+                // form of the property clause, hence the same label
+                consecutive_differ(appended(old(result)@, result@)) /*@C26.selection.detail-strictly-grows*/,
                 // everything still to come is at least as long as everything appended so far
                 forall|i: int, k: int| 0 <= i < appended(old(result)@, result@).len() && it.index@ <= k < sorted.len()
                     ==> rlen(#[trigger] appended(old(result)@, result@)[i]) <= rlen((#[trigger] sorted[k]).range),
@@ -211,25 +271,52 @@ ITEMS = {
         }
         assert(appended(old(result)@, result@) =~= Seq::<TextRange>::empty());
     }'''),
-            (r'result\.push\(__m\);', 'before', 'let ghost before = result@;'),
-            (r'result\.push\(__m\);', 'after', '''proof {
-                let n0 = old(result)@.len() as int;
+            # `__m` (extend form) / `range` (for form)
+            (r'result\.push\((?:__m|range)\);', 'before', 'let ghost before = result@;'),
+            (r'result\.push\((?:__m|range)\);', 'after', '''proof {
                 let a0 = appended(old(result)@, before);
                 let a1 = appended(old(result)@, result@);
-                assert(a1 =~= a0.push(__m));
-                assert(__m == sorted[it.index@].range);
+                let x = result@.last();
+                assert(a1 =~= a0.push(x));
+                assert(x == sorted[it.index@].range);
                 assert(sorted[it.index@] == items0[p[it.index@]]);
+                assert(a0.len() > 0 ==> a0.last() == before.last());
                 assert forall|i: int| 0 <= i < a1.len() implies exists|k: int| 0 <= k < items0.len() && (#[trigger] items0[k]).range == #[trigger] a1[i] by {
                     if i < a0.len() { assert(a1[i] == a0[i]); } else { assert(items0[p[it.index@]].range == a1[i]); }
                 }
             }'''),
-            # after the loop (`contains\w*`: the anchor survives the seeded edit contains -> contains_inclusive)
-            (r'if range\.contains\w*\(offset\) \{ result\.push\(__m\); \} \}', 'after', '''proof {
-        if laminar(items0) { lemma_detail_chain(items0, appended(old(result)@, result@), offset); }
+            # after the loop = in front of the closing brace of the function (both forms end with the loop)
+            (r'\}\s*\Z', 'before', '''proof {
+        let app = appended(old(result)@, result@);
+        if laminar(items0) {
+            lemma_detail_chain(items0, app, offset);
+            lemma_strict_chain(app);
+        }
     }'''),
         ],
         ),
 }
+
+# (4) the repair of finding F1 (proposed_fix_detail_dedup.diff) undone. Only applicable once the repository carries the repair:
+# on the unrepaired text the pattern does not occur (and the strict clause fails anyway), so the mutant is registered only when
+# the guard is present in the text under $VERIF_REPO
+AFTER_REPAIR_MUTANTS = [
+    {'name': 'detail-ranges-dedup-guard-removed', 'item': 'add_detail_ranges', 'applicable': 'after-repair',
+     'pattern': r'if result\.last\(\) != Some\(&range\) \{\s*result\.push\(range\);\s*\}', 'repl': 'result.push(range);',
+     'expect': r'add_detail_ranges.*C26\.selection\.detail-strictly-grows'},
+]
+
+
+def _repair_present():
+    import os
+    try:
+        with open(os.path.join(os.environ.get('VERIF_REPO', '/repo'), SEL), encoding='utf-8') as f:
+            txt = f.read()
+    except OSError:
+        return False
+    i = txt.find('fn add_detail_ranges')
+    return i >= 0 and 'result.last() != Some(&range)' in txt[i:]
+
 
 UNIT = {
     'items': ITEMS,
@@ -244,6 +331,16 @@ UNIT = {
          '`requires` (= the precondition of the shimmed TextRange::len, i.e. the type invariant of the real TextRange) and `ensures` '
          '(= its postcondition) added; the body expression is kept verbatim and Verus checks the contract against it, and the '
          '`requires` where sort_by_key may call it (on every element)'),
+        ('c26l-for-map-filter-loop',
+         r'for (\w+) in\s+(\w+)\s*\.into_iter\(\)\s*\.map\(\|(\w+)\| ([^|;]*?)\)\s*\.filter\(\|(\w+)\| ([^|;]*?)\)\s*\{((?:[^{}]|\{[^{}]*\})*)\}',
+         r'for \3 in \2 { let __m = \4; let \5 = &__m; if \6 { let \1 = __m; \7 } }',
+         'for z in W.into_iter().map(|x| M).filter(|y| P) { B } -> for x in W { let __m = M; let y = &__m; if P { let z = __m; B } }: '
+         'Rust reference (`for` drives IntoIterator::into_iter(E).next()), std doc of Iterator::map (calls the closure once on every '
+         'element, in order) and Iterator::filter (calls the predicate once per mapped element with a REFERENCE to it and yields those '
+         'for which it is true); the adapters are lazy, so per element the calls are map, filter, then the loop body — the order of '
+         'the rewritten body. M, P and B are kept verbatim with their parameters bound as in the closures / the loop; the closures '
+         'capture nothing B writes (rustc would reject a closure borrowing `result` across the loop). B may nest braces one level deep',
+         re.S),
         ('c26l-extend-map-filter-loop',
          r'(\w+)\.extend\(\s*(\w+)\s*\.into_iter\(\)\s*\.map\(\|(\w+)\| ([^|;]*?)\)\s*\.filter\(\|(\w+)\| ([^|;]*?)\),?\s*\);',
          r'for \3 in \2 { let __m = \4; let \5 = &__m; if \6 { \1.push(__m); } }',
@@ -260,9 +357,110 @@ UNIT = {
          '`..Default::default()` in an lsp_types::InlayHintLabelPart literal that sets `value` and `location` -> the two remaining '
          'fields spelled out (InlayHintLabelPart derives Default; both are Option fields, default None)'),
     ],
-    'min_obligations': 3,
-    'trusted': [],
-    'not_covered': [],
+    'allow': [
+        r'external_body', r'\buninterp\b',
+        r'assume_specification<T, E>\[ Result::<T, E>::unwrap_or \]',
+        r'assume_specification<T, K: Ord, F: FnMut\(&T\) -> K>\[ <\[T\]>::sort_by_key \]',
+    ],
+    'min_obligations': 40,
+    'trusted': [
+        # ---- proved elsewhere --------------------------------------------------------------------------------------------------
+        'LuaDocument::to_lsp_range shim: requires sp_doc_ok(self) && range_in_doc(self, range); r == Some(range of the LSP positions '
+        'of range.start / range.end), start <= end — PROVED in unit c22_lineindex ([C22.doc.to_lsp_range], [C21.range-wellformed]) '
+        'under sp_doc_ok = c22 wf(line_index, text) and sp_in_doc = offset <= text.len() on a char boundary; that the position is a '
+        'FUNCTION of (document, offset) is the uniqueness of the line an offset lies on (as in units c26_ranges / c26_semantic_tokens)',
+        'SemanticModel::get_document / get_document_by_file_id / Vfs::get_document shims return a document with sp_doc_ok: unit '
+        'c22_vfs [C22.vfs.document-pairs-text-with-its-line-index] (+ c22_lineindex: LineIndex::parse establishes wf) under vfs_wf; '
+        'that the two SemanticModel accessors are `self.db.get_vfs().get_document(&id)` is by reading (semantic/mod.rs:104-117)',
+        # ---- assumed ---------------------------------------------------------------------------------------------------------------
+        'ASSUMPTION index-consistency (sp_file_range + axiom_file_range, external_body proof fn): a range the index recorded for a '
+        'file — LuaOperator::get_range() with get_file_id() (set_meta_call_part), LuaDeclLocation { file_id, range } (get_type_location, '
+        'get_base_type_location, emmy_gutter) — is an ordered range of THAT file\'s current text on char boundaries. Stated as a '
+        '`requires` of each of those slices. It rests on C09/C10 (the index is rebuilt from the tree of the file\'s current text) and '
+        'C01 (tree text == input text); not proved here',
+        'ASSUMPTION tree-document agreement (axiom_tree_range, external_body proof fn; cf. axiom_range_in_doc of unit c26_ranges): the '
+        'range of a syntax element is a range of the file its tree was parsed from. sp_tree(e) == identity of that file\'s document is '
+        'a `requires` of the slices that take ranges from the tree (index_expr / lua_param / lua_params are nodes of the tree that '
+        'belongs to the document in scope: by reading the statements in front of the slices) and an `ensures` of the shimmed '
+        'get_root_by_file_id (c22_vfs [C22.vfs.tree-is-parse-of-current-text])',
+        'ASSUMPTION desc-items-laminar (hypothesis of [C26.selection.detail-chain-grows], NOT proved): any two items returned by '
+        'parse_desc (util/desc.rs -> emmylua_parser_desc::parse, the 5.9 kLoC markdown / MyST / RST markup parsers of property C37) '
+        'either nest or are disjoint. By reading: the inline and block parsers are stack based (inline_state / states are popped in '
+        'LIFO order), which suggests it; items with IDENTICAL ranges do occur (finding F1) and count as nested',
+        'parse_desc shim: result named sp_parse_desc(workspace, emmyrc, text, description, cursor); the only thing stated about the '
+        'items is the type invariant of text-size\'s TextRange (start <= end), which the common shim turns into the predicate wf',
+        'get_type_location shim (callee of the build_closure_hint slice): `r matches Some(l) ==> loc_in_its_doc(l)` — PROVED for its '
+        'two arms that build a Location (slices get_type_location::location, get_base_type_location::location) under the '
+        'index-consistency assumption; the remaining arms return the result of a recursive call / of get_base_type_location (by reading)',
+        # ---- shims without contract / named results -------------------------------------------------------------------------------
+        'opaque types: lsp_types::Uri (Clone returns an equal value; to_string = sp_uri_text), LuaDocument (get_uri = sp_uri(doc), a '
+        'function of the document: vfs/document.rs:40 file_path_to_uri(self.path)), SemanticModel, LuaOperator, LuaType, Emmyrc, '
+        'DbIndex, Vfs, LuaIndexKey, LuaSyntaxId, FilePath (stands for &PathBuf; try_exists has NO contract), IoError; all syntax-tree '
+        'handle types are aliases of ONE opaque type Syn (the extracted code is type-checked against a superset of the real typing); '
+        'typed child accessors / get_params / to_node_from_root return elements of the same tree; cast returns the node itself',
+        'callee shims WITHOUT contract: hint_humanize_type, vx_format_label (rule c26l-format-label); build_label_parts: result named '
+        'sp_label_parts(model, typ), otherwise unspecified; get_module / get_emmyrc / get_text: results named, otherwise unspecified',
+        'lsp_types::{Position, Range, Location (+ Location::new, transcribed with its body), LocationLink, GotoDefinitionResponse, '
+        'InlayHintLabelPart} transcribed from emmy_lsp_types 0.1.0; RenderLevel transcribed; FileId, LuaDeclLocation (projected to '
+        'file_id, range), GutterKind, GutterLocation, WorkspaceId (+ MAIN), ModuleInfo (projected to workspace_id), DescItem '
+        '(projected to range) EXTRACTED from the repository',
+        # ---- std ---------------------------------------------------------------------------------------------------------------------
+        'Result::unwrap_or (std doc: "Returns the contained Ok value or a provided default") and <[T]>::sort_by_key (std doc: "Sorts '
+        'the slice in ascending order with a key extraction function, preserving initial order of equal elements": a permutation of '
+        'the input, ascending in the key; requires a deterministic key function that may be called on every element and K: Ord '
+        'obeying its spec) as assume_specification; TextSize: Ord added to the common text-size shim (derived in text-size 1.1.1, same '
+        'text as unit c26_ranges); obeys_key_model::<String>() is a precondition of the HashMap<String, Location> slice',
+    ],
+    'findings': [
+        {'id': 'F1', 'clause': 'C26 selection ranges strictly grow outward (description part)', 'status': 'open',
+         'where': 'document_selection_range/mod.rs:92-99 add_detail_ranges + emmylua_parser_desc/src/markdown/mod.rs:1801-1817 '
+                  '(end_highlight, InlineState::Both)',
+         'what': 'the markdown parser emits TWO items with the IDENTICAL range for `***text***` (DescItemKind::Em and '
+                 'DescItemKind::Strong, both SourceRange::from_start_end(scope_start, scope_end); the test suite expects it: '
+                 'markdown/test.rs:163 `<Em><Strong><Markup>***</Markup>both<Markup>***</Markup></Strong></Em>`; sort_result even '
+                 'orders equal ranges "scopes go first"). add_detail_ranges keeps every item range that contains the offset and never '
+                 'compares neighbours (the `ranges.last() != Some(&range)` guard of commit 604fa2e is only in the ancestor loop), so '
+                 'the chain repeats the range: parent.range == range — the same defect class as the one fixed by 604fa2e',
+         'input': 'document "--- ***both***\\nlocal x = 1" (default doc.syntax = md), textDocument/selectionRange at 0:8 (inside '
+                  '"both"): ranges = [4..14 (Em), 4..14 (Strong), …ancestors]: the first two SelectionRanges are both 0:4-0:14',
+         'clause stated': 'laminar(items) ==> every appended range contains the previous one AND differs from it '
+                          '[C26.selection.detail-strictly-grows] (postcondition + loop invariant consecutive_differ, same label)',
+         'obligation': r'add_detail_ranges:invariant-not-satisfied-at-end-of-loop-b\[C26\.selection\.detail-strictly-grows\]',
+         'proposed fix': 'units/c26_locations/proposed_fix_detail_dedup.diff (relative to /repo, `git -C /repo apply --check` passes): the '
+                         '`result.extend(PIPELINE)` becomes `for range in PIPELINE { if result.last() != Some(&range) { result.push(range); } }` '
+                         '— the guard of commit 604fa2e. Under laminarity kept ranges of equal length are equal, hence adjacent after the '
+                         'sort by length, so skipping a range equal to the previous entry removes every repetition. Checked on a scratch '
+                         'worktree of HEAD with the diff applied: the unit exits 0, [C26.selection.detail-strictly-grows] proved; '
+                         'guarded by mutant detail-ranges-dedup-guard-removed (registered only when the guard is in the text)',
+         'verified by': 'the failing obligation (deductive) + reading of the parser for the concrete input (no cargo build in this task)'},
+        {'id': 'F2', 'clause': 'C26 every location or range the server returns lies inside its document', 'status': 'open (low severity)',
+         'where': 'vfs/document.rs:130-141 get_document_lsp_range, returned by definition/goto_module_file.rs:27-32',
+         'what': 'the range ends at Position { line: line_count, character: 0 }: lines are numbered 0..line_count-1, so the end '
+                 'position is on a line that does not exist in the document (PROVED shape: [C26.location.whole-document-range])',
+         'input': 'module file "return 1" (one line, line_count == 1): goto definition on require("a") returns 0:0-1:0; line 1 does not exist',
+         'obligation': 'none fails: the unit states what the function returns; "end inside the document" is not claimed'},
+    ],
+    'not_covered': [
+        'definition/goto_def_definition.rs:259 goto_source_location: the Location is parsed out of a `---@source uri#L<line>:<col>` '
+        'string (Uri::from_str, two u32): NO document is consulted, so neither "same document" nor "inside its document" can be stated; '
+        'whatever the annotation says is returned',
+        'the 27 call sites of LuaDocument::to_lsp_location other than get_override_lsp_location (references, implementation, '
+        'definition, rename, workspace symbols): the CALLEE is under contract; that each caller passes a range of the document it '
+        'calls it on (the precondition) is not checked here',
+        'the statements in front of the slices (how document / root / lua_param / location are obtained) and what is done with the '
+        'Locations afterwards (InlayHint construction, dedup / reorder in build_label_parts)',
+        'selection ranges inside a description beyond the detail ranges themselves: that the LAST detail range lies inside the '
+        'description node\'s range (the first ancestor range pushed after it) needs "items lie inside the description", another '
+        'assumption about parse_desc; the ancestor part is unit c26_ranges',
+        'columns are counts of Unicode scalar values (unit c22), not UTF-16 code units (property C23)',
+    ],
+    'samples': [
+        'to_lsp_location: loc.uri == sp_uri(self) && loc.range == doc_lsp_range(self, range)',
+        'set_meta_call_part (slice): same_doc(sp_doc_of_file(model, operator.file), operator.range, loc): ONE document d with that '
+        'identity, loc.uri == sp_uri(d), loc.range == doc_lsp_range(d, range), range inside d',
+        'add_detail_ranges: appended ranges contain the offset (start <= offset < end), sorted by length; laminar items ==> each '
+        'appended range contains the previous one',
+    ],
     'mutants': [
         # the Location is built from another range than the one asked for
         {'name': 'to-lsp-location-converts-empty-range', 'item': 'LuaDocument::to_lsp_location',
@@ -274,6 +472,9 @@ UNIT = {
          'pattern': r'let lsp_range = document\.to_lsp_range\(range\)\?;',
          'repl': 'let lsp_range = semantic_model.get_document().to_lsp_range(range)?;',
          'expect': r'set_meta_call_part::location.*(C26\.location\.meta-call\.same-document|precondition-not-satisfied)'},
+        {'name': 'override-converts-with-model-document', 'item': 'get_override_lsp_location',
+         'pattern': r'let document = semantic_model\.get_document_by_file_id\(file_id\)\?;', 'repl': 'let document = semantic_model.get_document();',
+         'expect': r'get_override_lsp_location.*(C26\.location\.override\.same-document|precondition-not-satisfied)'},
         # the same defect class at the other sites that fetch the document of ANOTHER file
         {'name': 'type-decl-converts-with-model-document', 'item': 'get_type_location::location',
          'pattern': r'let lsp_range = document\.to_lsp_range\(location\.range\)\?;',
@@ -313,8 +514,13 @@ UNIT = {
         {'name': 'detail-ranges-filter-negated', 'item': 'add_detail_ranges',
          'pattern': r'range\.contains\(offset\)', 'repl': '!range.contains(offset)',
          'expect': r'add_detail_ranges.*C26\.selection\.detail-(contains-offset|chain-grows)'},
+        # a longest-possible range put in FRONT of the sorted items
         {'name': 'detail-ranges-not-sorted', 'item': 'add_detail_ranges',
-         'pattern': r'items\.sort_by_key\(\|item\| item\.range\.len\(\)\);', 'repl': 'items.sort_by_key(|item| item.range.len()); items.reverse();',
-         'expect': r'add_detail_ranges.*C26\.selection\.detail-(sorted-by-length|chain-grows)'},
+         'pattern': r'items\.sort_by_key\(\|item\| item\.range\.len\(\)\);', 'repl': 'items.sort_by_key(|item| item.range.len()); items.insert(0, DescItem { range: TextRange::new(TextSize::from(0), TextSize::from(u32::MAX)) });',
+         'expect': r'add_detail_ranges.*(C26\.selection\.detail-(sorted-by-length|are-item-ranges|chain-grows)|invariant-not-satisfied-before-loop)'},
     ],
 }
+
+UNIT['mutants_after_repair'] = AFTER_REPAIR_MUTANTS
+if _repair_present():
+    UNIT['mutants'] = UNIT['mutants'] + AFTER_REPAIR_MUTANTS
